@@ -11,12 +11,15 @@ namespace SV
 structure JobOK (j : Job) : Prop where
   /-- never more runs than the budget -/
   budget : 0 < j.maxAtt → (j.attempts : Int) ≤ j.maxAtt
-  /-- unless marked for deletion, the pending timer is not past `stop` -/
-  pend : j.markDelete = false → ∀ st, j.stop = some st → j.pendingTimer.next.inst ≤ st.inst
   /-- the window is non-empty -/
   window : ∀ st, j.stop = some st → j.start.inst < st.inst
   /-- failures are a subset of the runs -/
   failed : j.failed ≤ j.attempts
+
+/-- unless marked for deletion, the planned execution (`start` itself for a `delay=False` job that
+    has not run yet, else the pending timer) is not past `stop`. Holds for every job except between
+    its run and its rescheduling inside one `exec_jobs` call. -/
+def Settled (j : Job) : Prop := j.markDelete = false → ∀ st, j.stop = some st → j.due.inst ≤ st.inst
 
 /-- invariant between operations. `D` = keys of jobs that were run by the current `exec_jobs` call
     but not yet rescheduled/retired (empty between operations). -/
@@ -25,15 +28,12 @@ structure Mid (s : State) (D : List Nat) : Prop where
   inHeap : ∀ k ∈ s.reg, k < s.heap.length
   heapOK : ∀ sj ∈ s.heap, JobOK sj.job
   hasAtt : ∀ k ∈ s.reg, k ∉ D → ∀ sj, s.find k = some sj → sj.job.hasAttempts = true
+  settled : ∀ k, k ∉ D → ∀ sj, s.find k = some sj → Settled sj.job
 
 abbrev Inv (s : State) : Prop := Mid s []
 
-theorem JobOK.due_le_stop (j : Job) (h : JobOK j) (hm : j.markDelete = false) (st : DT)
-    (hs : j.stop = some st) : j.due.inst ≤ st.inst := by
-  unfold Job.due
-  split
-  · exact Int.le_of_lt (h.window st hs)
-  · exact h.pend hm st hs
+theorem Settled.due_le_stop (j : Job) (h : Settled j) (hm : j.markDelete = false) (st : DT)
+    (hs : j.stop = some st) : j.due.inst ≤ st.inst := h hm st hs
 
 theorem hasAttempts_markDelete (j : Job) (h : j.hasAttempts = true) : j.markDelete = false := by
   unfold Job.hasAttempts at h
@@ -67,14 +67,16 @@ theorem startStop_window (tz : Option Int) (start stop : Option DT) (clock : Int
 
 theorem JobOK.build (ts : List Timing) (s : DT) (stop : Option DT) (delay skip : Bool) (m : Int)
     (hw : ∀ st, stop = some st → s.inst < st.inst) : JobOK (Job.build ts s stop delay skip m) := by
-  refine ⟨fun hp => by simp only [Job.build] at hp ⊢; omega, ?_, hw, by simp [Job.build]⟩
+  exact ⟨fun hp => by simp only [Job.build] at hp ⊢; omega, hw, by simp [Job.build]⟩
+
+theorem Settled.build (ts : List Timing) (s : DT) (stop : Option DT) (delay skip : Bool) (m : Int) :
+    Settled (Job.build ts s stop delay skip m) := by
   intro hm st hst
   have hst' : stop = some st := hst
   subst hst'
   simp only [Job.build, Job.pastStop] at hm
-  simp only [Job.pendingTimer, Job.build]
   have := of_decide_eq_false hm
-  omega
+  cases delay <;> simp [Job.due, Job.pendingTimer, Job.build] at this ⊢ <;> omega
 
 theorem JobOK.create (tz : Option Int) (ts : List Timing) (start stop : Option DT) (delay skip : Bool)
     (m : Int) (clock : Int) (j : Job) (h : Job.create tz ts start stop delay skip m clock = .ok j) :
@@ -102,32 +104,81 @@ theorem JobOK.ofCreateJob (tz : Option Int) (sp : RawSpec) (clock : Int) (direct
         · cases h
         · exact JobOK.create _ _ _ _ _ _ _ _ _ h
 
+theorem Settled.create (tz : Option Int) (ts : List Timing) (start stop : Option DT) (delay skip : Bool)
+    (m : Int) (clock : Int) (j : Job) (h : Job.create tz ts start stop delay skip m clock = .ok j) :
+    Settled j := by
+  obtain ⟨s, _, hj, _⟩ := Job.create_ok _ _ _ _ _ _ _ _ _ h
+  subst hj
+  exact Settled.build _ _ _ _ _ _
+
+theorem Settled.ofCreateJob (tz : Option Int) (sp : RawSpec) (clock : Int) (direct : Bool) (j : Job)
+    (h : (if direct then createJobDirect tz sp clock else createJob tz sp clock) = .ok j) : Settled j := by
+  cases direct with
+  | true =>
+      simp only [if_true, SV.createJobDirect] at h
+      split at h
+      · cases h
+      · exact Settled.create _ _ _ _ _ _ _ _ _ h
+  | false =>
+      simp only [Bool.false_eq_true, if_false, SV.createJob] at h
+      split at h
+      · exact Settled.create _ _ _ _ _ _ _ _ _ h
+      · split at h
+        · cases h
+        · exact Settled.create _ _ _ _ _ _ _ _ _ h
+      · split at h
+        · cases h
+        · exact Settled.create _ _ _ _ _ _ _ _ _ h
+
 /-! ### exec1 / calcNext on one job -/
 
 theorem JobOK.exec1 (j : Job) (h : JobOK j) (ha : j.hasAttempts = true) (r : Bool) : JobOK (j.exec1 r) := by
-  refine ⟨?_, h.pend, h.window, ?_⟩
+  refine ⟨?_, h.window, ?_⟩
   · intro hp
     have := hasAttempts_budget j ha hp
     simp [Job.exec1]; omega
   · have := h.failed
     simp only [Job.exec1]; split <;> omega
 
-theorem JobOK.calcNext (j : Job) (h : JobOK j) (ref : DT) : JobOK (j.calcNext ref) := by
-  refine ⟨h.budget, ?_, h.window, h.failed⟩
+theorem JobOK.calcNext (j : Job) (h : JobOK j) (ref : DT) : JobOK (j.calcNext ref) :=
+  ⟨h.budget, h.window, h.failed⟩
+
+/-- rescheduling settles a job whatever its state was -/
+theorem Settled.calcNext (j : Job) (h : JobOK j) (ref : DT) : Settled (j.calcNext ref) := by
   intro hm st hst
   simp only [Job.calcNext] at hm hst
   simp only [Bool.or_eq_false_iff, Job.pastStop] at hm
   obtain ⟨_, h2⟩ := hm
   simp only [hst] at h2
-  have := of_decide_eq_false h2
-  simp only [Job.pendingTimer, Job.calcNext]
-  omega
+  have h3 := of_decide_eq_false h2
+  have hw := h.window st hst
+  unfold Job.due
+  split
+  · simp only [Job.calcNext]; omega
+  · simp only [Job.pendingTimer, Job.calcNext]; omega
 
 /-! ### registry operations -/
 
 theorem State.find_append_lt (s : State) (sj : SJob) (k : Nat) (hk : k < s.heap.length) :
     ({ s with heap := s.heap ++ [sj] } : State).find k = s.find k := by
   simp [State.find, List.getElem?_append_left hk]
+
+/-- looking a key up in a heap that grew by one job -/
+theorem State.find_append (s : State) (sj sj' : SJob) (k : Nat)
+    (hf : ({ s with heap := s.heap ++ [sj] } : State).find k = some sj') :
+    s.find k = some sj' ∨ sj' = sj := by
+  by_cases hk : k < s.heap.length
+  · left; rw [← State.find_append_lt s sj k hk]; exact hf
+  · right
+    simp only [State.find] at hf
+    rw [List.getElem?_append_right (by omega)] at hf
+    have : k - s.heap.length = 0 := by
+      by_cases h0 : k - s.heap.length = 0
+      · exact h0
+      · rw [List.getElem?_eq_none (by simp; omega)] at hf; cases hf
+    rw [this] at hf
+    simpa using hf.symm
+
 
 theorem Mid.schedule (s : State) (D : List Nat) (h : Mid s D) (sp : RawSpec) (clock : Int) (direct : Bool) :
     Mid (schedule s sp clock direct).1 D := by
@@ -136,10 +187,17 @@ theorem Mid.schedule (s : State) (D : List Nat) (h : Mid s D) (sp : RawSpec) (cl
   | error e => exact h
   | ok j =>
       have hj := JobOK.ofCreateJob s.tz sp clock direct j hc
+      have hset := Settled.ofCreateJob s.tz sp clock direct j hc
+      have hsettled : ∀ (x : SJob), x.job = j → ∀ k, k ∉ D → ∀ sj,
+          ({ s with heap := s.heap ++ [x] } : State).find k = some sj → Settled sj.job := by
+        intro x hx k hkD sj hf
+        rcases State.find_append s x sj k hf with h1 | h1
+        · exact h.settled k hkD sj h1
+        · subst h1; rw [hx]; exact hset
       simp only []
       by_cases ha : j.hasAttempts = true
       · simp only [ha, if_true]
-        refine ⟨?_, ?_, ?_, ?_⟩
+        refine ⟨?_, ?_, ?_, ?_, hsettled _ rfl⟩
         · rw [List.nodup_append]
           refine ⟨h.nodup, by simp, ?_⟩
           intro a ha' b hb
@@ -165,7 +223,7 @@ theorem Mid.schedule (s : State) (D : List Nat) (h : Mid s D) (sp : RawSpec) (cl
             simp [State.find] at hf
             subst hf; exact ha
       · simp only [ha, Bool.false_eq_true, if_false]
-        refine ⟨h.nodup, ?_, ?_, ?_⟩
+        refine ⟨h.nodup, ?_, ?_, ?_, hsettled _ rfl⟩
         · intro k hk
           have := h.inHeap k hk
           simp only [List.length_append, List.length_singleton]; omega
@@ -180,9 +238,14 @@ theorem Mid.schedule (s : State) (D : List Nat) (h : Mid s D) (sp : RawSpec) (cl
           exact h.hasAtt k hk hkD sj this
 
 /-- a job object that exists but is not registered -/
-theorem Mid.addHeap (s : State) (D : List Nat) (h : Mid s D) (sj : SJob) (hj : JobOK sj.job) :
-    Mid { s with heap := s.heap ++ [sj] } D := by
-  refine ⟨h.nodup, ?_, ?_, ?_⟩
+theorem Mid.addHeap (s : State) (D : List Nat) (h : Mid s D) (sj : SJob) (hj : JobOK sj.job)
+    (hset : Settled sj.job) : Mid { s with heap := s.heap ++ [sj] } D := by
+  refine ⟨h.nodup, ?_, ?_, ?_, ?_⟩
+  rotate_right
+  · intro k hkD sj' hf
+    rcases State.find_append s sj sj' k hf with h1 | h1
+    · exact h.settled k hkD sj' h1
+    · subst h1; exact hset
   · intro k hk
     have := h.inHeap k hk
     simp only [List.length_append, List.length_singleton]; omega
@@ -199,7 +262,7 @@ theorem Mid.addHeap (s : State) (D : List Nat) (h : Mid s D) (sj : SJob) (hj : J
 theorem Mid.deleteJob (s : State) (D : List Nat) (h : Mid s D) (k : Nat) : Mid (deleteJob s k).1 D := by
   unfold SV.deleteJob
   split
-  · refine ⟨h.nodup.erase k, ?_, h.heapOK, ?_⟩
+  · refine ⟨h.nodup.erase k, ?_, h.heapOK, ?_, h.settled⟩
     · intro k' hk'; exact h.inHeap k' (List.mem_of_mem_erase hk')
     · intro k' hk' hD sj hf; exact h.hasAtt k' (List.mem_of_mem_erase hk') hD sj hf
   · exact h
@@ -207,7 +270,7 @@ theorem Mid.deleteJob (s : State) (D : List Nat) (h : Mid s D) (k : Nat) : Mid (
 theorem Mid.deleteJobs (s : State) (D : List Nat) (h : Mid s D) (q : List Nat) (any : Bool) :
     Mid (deleteJobs s q any).1 D := by
   unfold SV.deleteJobs
-  refine ⟨h.nodup.filter _, ?_, h.heapOK, ?_⟩
+  refine ⟨h.nodup.filter _, ?_, h.heapOK, ?_, h.settled⟩
   · intro k' hk'; exact h.inHeap k' (List.mem_filter.mp hk').1
   · intro k' hk' hD sj hf; exact h.hasAtt k' (List.mem_filter.mp hk').1 hD sj hf
 
@@ -286,7 +349,7 @@ theorem RunInv.runOne (s : State) (D B : List Nat) (k : Nat) (h : RunInv s D (k 
     rw [f1 k hk]; exact hsj
   have hnd := List.nodup_cons.mp h.bnodup
   simp only [SV.runOne, hsj]
-  refine ⟨⟨m1.nodup, ?_, ?_, ?_⟩, hnd.2, ?_, ?_⟩
+  refine ⟨⟨m1.nodup, ?_, ?_, ?_, ?_⟩, hnd.2, ?_, ?_⟩
   · intro k' hk'; simpa using m1.inHeap k' hk'
   · intro sj' hsj'
     simp only [State.setJob] at hsj'
@@ -306,6 +369,13 @@ theorem RunInv.runOne (s : State) (D B : List Nat) (k : Nat) (h : RunInv s D (k 
         (fun j => j.exec1 (raises.contains k))).find k' = some sj' := hf
     rw [State.setJob_find_ne _ k k' _ hne] at hf'
     exact m1.hasAtt k' hk' hD' sj' hf'
+  · intro k' hD sj' hf
+    have hne : k ≠ k' := fun e => hD (by simp [e])
+    have hD' : k' ∉ D := fun e => hD (by simp [e])
+    have hf' : ((((scripts.lookup k).getD []).foldl (fun st op => runCOp st clock op) s).setJob k
+        (fun j => j.exec1 (raises.contains k))).find k' = some sj' := hf
+    rw [State.setJob_find_ne _ k k' _ hne] at hf'
+    exact m1.settled k' hD' sj' hf'
   · intro k' hk'
     obtain ⟨hk2, hatt2⟩ := h.bOK k' (by simp [hk'])
     have hne : k ≠ k' := fun e => hnd.1 (e ▸ hk')
@@ -353,10 +423,22 @@ theorem Mid.postOne (s : State) (D : List Nat) (h : Mid s D) (ref : DT) (k : Nat
     rcases mem_modify _ _ _ _ hsj' with h1 | ⟨b, hb, rfl⟩
     · exact h.heapOK sj' h1
     · exact JobOK.calcNext _ (h.heapOK b (List.mem_of_getElem? hb)) _
+  have hSet : ∀ k', k' ∉ D.filter (· ≠ k) → ∀ sj', (s.setJob k (fun j => j.calcNext ref)).find k' = some sj' →
+      Settled sj'.job := by
+    intro k' hD sj' hf
+    by_cases hkk : k = k'
+    · subst hkk
+      rw [hf1] at hf
+      cases hf
+      exact Settled.calcNext _ (h.heapOK sj (List.mem_of_getElem? hsj)) _
+    · have hD' : k' ∉ D := by
+        intro e; exact hD (List.mem_filter.mpr ⟨e, by simpa using fun e' => hkk e'.symm⟩)
+      rw [State.setJob_find_ne _ k k' _ hkk] at hf
+      exact h.settled k' hD' sj' hf
   simp only [SV.postOne, hf1]
   by_cases ha : (sj.job.calcNext ref).hasAttempts = true
   · simp only [ha, if_true]
-    refine ⟨⟨h.nodup, by simpa using h.inHeap, hOK, ?_⟩, by simp⟩
+    refine ⟨⟨h.nodup, by simpa using h.inHeap, hOK, ?_, hSet⟩, by simp⟩
     intro k' hk' hD sj' hf
     by_cases hkk : k = k'
     · subst hkk
@@ -367,7 +449,7 @@ theorem Mid.postOne (s : State) (D : List Nat) (h : Mid s D) (ref : DT) (k : Nat
       rw [State.setJob_find_ne _ k k' _ hkk] at hf
       exact h.hasAtt k' hk' hD' sj' hf
   · simp only [ha, Bool.false_eq_true, if_false]
-    refine ⟨⟨h.nodup.erase k, ?_, hOK, ?_⟩, by simp⟩
+    refine ⟨⟨h.nodup.erase k, ?_, hOK, ?_, hSet⟩, by simp⟩
     · intro k' hk'; simpa using h.inHeap k' (List.mem_of_mem_erase hk')
     · intro k' hk' hD sj' hf
       have hkk : k ≠ k' := by
@@ -486,6 +568,7 @@ theorem Inv.step (s : State) (h : Inv s) (op : Op) : Inv (step s op).1 := by
         · exact h
         · rename_i j hj
           exact Mid.addHeap s [] h _ (JobOK.ofCreateJob jtz sp clock true j (by simpa using hj))
+            (Settled.ofCreateJob jtz sp clock true j (by simpa using hj))
   | exec clock force order raises scripts => exact Inv.execJobs s h clock force order raises scripts
   | del k => exact Mid.deleteJob s [] h k
   | delTags q any => exact Mid.deleteJobs s [] h q any
@@ -497,7 +580,8 @@ def State.init (tz : Option Int) (maxExec : Nat) (prio : PrioKind) : State :=
   { tz := tz, maxExec := maxExec, prio := prio }
 
 theorem Inv.init (tz : Option Int) (maxExec : Nat) (prio : PrioKind) : Inv (State.init tz maxExec prio) :=
-  ⟨by simp [State.init], by simp [State.init], by simp [State.init], by simp [State.init]⟩
+  ⟨by simp [State.init], by simp [State.init], by simp [State.init], by simp [State.init],
+   by simp [State.init, State.find]⟩
 
 theorem run_fst (s : State) (ops : List Op) (acc : List Out) :
     (ops.foldl (fun (a : State × List Out) op => let (s', o) := step a.1 op; (s', a.2 ++ [o])) (s, acc)).1
